@@ -432,7 +432,9 @@ class Body:
             ck = rv.get("ck", "")
             if ck.startswith("PointerCoercion") or ck.startswith("Transmute") or ck.startswith("PtrToPtr"):
                 return inner
-            return ("cast", inner, rv["ty"])
+            o = rv["o"]
+            src = o.get("ty", "") if o.get("k") == "c" else (self.locals[o["p"]["l"]]["ty"] if "p" in o and "p" not in o["p"] else "")
+            return ("cast", inner, rv["ty"], src)
         if r == "discr":
             return ("discr", self.term_place(rv["p"], depth + 1, seen), rv.get("adt", ""),
                     tuple(sorted((int(k), v) for k, v in rv.get("vars", {}).items())))
